@@ -58,4 +58,8 @@ theorem length_mapM_option {β γ : Type} (f : β → Option γ) : ∀ (l : List
         subst h
         simp [length_mapM_option f l bs hl]
 
+theorem take_drop_comm {β : Type} (l : List β) (k n : Nat) (hk : k ≤ n) : (l.drop k).take (n - k) = (l.take n).drop k := by
+  rw [List.take_drop]; congr 2; omega
+
+
 end TdVerif.C02
